@@ -1,2 +1,4 @@
 import PlcModel.Regex
 import PlcModel.Lex
+import PlcModel.SemTok
+import PlcModel.Lsp
